@@ -50,6 +50,8 @@ type Op struct {
 	H         uint64     `json:"h,omitempty"`
 	Dissent   uint64     `json:"dissent_height,omitempty"` // one oracle (DissentBy) reports the same event with this height instead of H
 	DissentBy int        `json:"dissent_by,omitempty"`
+	Sub       []Op       `json:"race,omitempty"`      // Kind "Race": two consecutive external events with a divergent and a slow oracle
+	Part      int        `json:"race_part,omitempty"` // 1, 2: this operation is the first / second event of a Race
 	Success   bool       `json:"success,omitempty"`
 	Refund    int        `json:"refund,omitempty"`
 	Coins     [][2]int64 `json:"coins,omitempty"`
@@ -291,6 +293,74 @@ func (w *World) observeClaim(op Op, mk func(nonce, height uint64) crosschaintype
 	return false
 }
 
+// mkClaim: the external event an observing operation stands for, as the claim an oracle submits for it
+func (w *World) mkClaim(op Op) func(n, h uint64) crosschaintypes.ExternalClaim {
+	switch op.Kind {
+	case "BatchExecuted":
+		return func(n, h uint64) crosschaintypes.ExternalClaim {
+			return &crosschaintypes.MsgSendToExternalClaim{EventNonce: n, BlockHeight: h, BatchNonce: op.Nonce, TokenContract: w.toks[op.Token].Contract}
+		}
+	case "ObserveResult":
+		return func(n, h uint64) crosschaintypes.ExternalClaim {
+			return &crosschaintypes.MsgBridgeCallResultClaim{EventNonce: n, BlockHeight: h, Nonce: op.Nonce, TxOrigin: extAddrs[1], Success: op.Success}
+		}
+	}
+	return func(n, h uint64) crosschaintypes.ExternalClaim {
+		return &crosschaintypes.MsgSendToFxClaim{EventNonce: n, BlockHeight: h, TokenContract: contracts[0], Amount: sdkmath.NewInt(1),
+			Sender: extAddrs[0], Receiver: lib.EthKey(w.c.Seed, "c05sink", 0).Acc().String()}
+	}
+}
+
+type subStep struct {
+	Op   Op
+	Ok   bool
+	Snap Snap
+}
+
+// steps performs one generated operation; a Race yields two model steps
+func (w *World) steps(op Op) []subStep {
+	if op.Kind == "Race" && len(op.Sub) == 2 {
+		return w.race(op.Sub[0], op.Sub[1])
+	}
+	ok, s := w.step(op)
+	return []subStep{{op, ok, s}}
+}
+
+// race: two consecutive external events a (nonce n) and b (nonce n+1) reported by three oracles with an uneven
+// schedule: oracle 0 reports a; oracle 1 reports a with ANOTHER height (a divergent report: a different attestation);
+// oracles 0 and 1 go on and report b; only then the slow oracle 2 reports a, and finally b. Events must take effect
+// in nonce order: a when oracle 2's report completes its quorum (oracles 0+2), b afterwards. Model: step a, then step b.
+func (w *World) race(a, b Op) []subStep {
+	a.Part, b.Part = 1, 2
+	n := w.nextEv
+	O := w.x.Oracles
+	mkA, mkB := w.mkClaim(a), w.mkClaim(b)
+	div := a.Dissent
+	if div == 0 || div == a.H {
+		div = a.H + 1
+	}
+	w.c.Ctx = w.c.Ctx.WithEventManager(sdk.NewEventManager())
+	_ = w.x.Claim(O[0], mkA(n, a.H))
+	_ = w.x.Claim(O[1], mkA(n, div))
+	_ = w.x.Claim(O[0], mkB(n+1, b.H))
+	_ = w.x.Claim(O[1], mkB(n+1, b.H))
+	_ = w.x.Claim(O[2], mkA(n, a.H))
+	okA := w.x.Keeper.GetLastObservedEventNonce(w.c.Ctx) == n
+	sA := w.snapshot()
+	sA.Events = w.events()
+	w.c.Ctx = w.c.Ctx.WithEventManager(sdk.NewEventManager())
+	_ = w.x.Claim(O[2], mkB(n+1, b.H))
+	okB := okA && w.x.Keeper.GetLastObservedEventNonce(w.c.Ctx) == n+1
+	sB := w.snapshot()
+	sB.Events = w.events()
+	if okB {
+		w.nextEv = n + 2
+	} else {
+		w.stuck = true
+	}
+	return []subStep{{a, okA, sA}, {b, okB, sB}}
+}
+
 func fillForValidation(c crosschaintypes.ExternalClaim, bridger string) {
 	switch m := c.(type) {
 	case *crosschaintypes.MsgSendToFxClaim:
@@ -377,19 +447,8 @@ func (w *World) apply(op Op) (accepted bool) {
 			_, err := ms.RequestBatch(ctx, m)
 			return err
 		})
-	case "BatchExecuted":
-		return w.observeClaim(op, func(n, h uint64) crosschaintypes.ExternalClaim {
-			return &crosschaintypes.MsgSendToExternalClaim{EventNonce: n, BlockHeight: h, BatchNonce: op.Nonce, TokenContract: w.toks[op.Token].Contract}
-		})
-	case "Observe":
-		return w.observeClaim(op, func(n, h uint64) crosschaintypes.ExternalClaim {
-			return &crosschaintypes.MsgSendToFxClaim{EventNonce: n, BlockHeight: h, TokenContract: contracts[0], Amount: sdkmath.NewInt(1),
-				Sender: extAddrs[0], Receiver: lib.EthKey(w.c.Seed, "c05sink", 0).Acc().String()}
-		})
-	case "ObserveResult":
-		return w.observeClaim(op, func(n, h uint64) crosschaintypes.ExternalClaim {
-			return &crosschaintypes.MsgBridgeCallResultClaim{EventNonce: n, BlockHeight: h, Nonce: op.Nonce, TxOrigin: extAddrs[1], Success: op.Success}
-		})
+	case "BatchExecuted", "Observe", "ObserveResult":
+		return w.observeClaim(op, w.mkClaim(op))
 	case "ExecResult":
 		return w.tryMsg(func(ctx sdk.Context) error { return w.x.Keeper.ExecuteClaim(ctx, op.E) })
 	case "BridgeCall":
